@@ -210,10 +210,11 @@ def build_case(rng, tier):
         if r.get('caps_override') and len(lay['extras']) > 1:
             r['caps'].update(r['caps_override'])
     name = rng.choice(['Card', 'Bank', 'My Visa'])
-    settings = st.source_settings(lay, name, 'data/s.csv')
+    fname = rng.choice(['data/s.csv'] * 5 + ['data/statement.txt', 'data/EXPORT.TSV', 'data/export.tab', 'data/card.dat', 'data/Card Export 2025', 'data/s.CSV', 'data/s.csv.bak', 'data/2025-01.csv.txt'])
+    settings = st.source_settings(lay, name, fname)
     expected = [st.expected_txn(lay, r, name) for r in rows]
     case = {'layout': lay, 'rows': rows, 'settings': settings, 'source': name, 'text': st.render(lay, rows),
-            'expected': expected, 'faults': []}
+            'expected': expected, 'faults': [], 'fname': fname}
     if rng.random() < 0.15:
         case['stderr_broken'] = rng.choice(['stderr', 'stderr', 'both'])
     classes = list(CLASSES)
@@ -330,11 +331,12 @@ def execute(case, scratch):
                                '+loc' if lay['location'] else '')
 
     def parse(text, reads=None):
-        util.write_world(world, {'data/s.csv': text})
-        path = os.path.join(world, 'data/s.csv')
+        fname = case.get('fname', 'data/s.csv')       # what a statement file is called is not part of its format
+        util.write_world(world, {fname: text})
+        path = os.path.join(world, fname)
         plan = {'net': 'down'}
         if reads:
-            plan['reads'] = {'data/s.csv': reads}
+            plan['reads'] = {fname: reads}
         if case.get('stderr_broken'):
             # nobody reads the diagnostics (stderr closed / on a full disk): every write to it fails.  What the reader returns is
             # what it returns otherwise
@@ -374,8 +376,8 @@ def execute(case, scratch):
                                    'schedule': sched(None)})
         if 'txns' in base:
             # the same spec object used for two reads under two names
-            util.write_world(world, {'data/s.csv': case['text']})
-            r = proc.run_func(world, lambda: parse_reuse(os.path.join(world, 'data/s.csv'), case['settings']), {'net': 'down'}, ctl_parent=ctlp)
+            util.write_world(world, {case.get('fname', 'data/s.csv'): case['text']})
+            r = proc.run_func(world, lambda: parse_reuse(os.path.join(world, case.get('fname', 'data/s.csv')), case['settings']), {'net': 'down'}, ctl_parent=ctlp)
             if r.exit != 0 or r.result is None:
                 raise proc.HarnessError('reuse parse process failed: %s' % r.err[-1500:])
             count['parses'] += 2
